@@ -8,6 +8,7 @@ correspondence.  Usage: t1_translate.py <repo> <outdir>  (prints a JSON summary)
 from __future__ import annotations
 
 import ast
+import re
 import json
 import sys
 from pathlib import Path
@@ -992,6 +993,58 @@ def emit_alias(a) -> str:
             f"Definition src_td_unstruct_copy_first : bool := {_coq_bool(a['td_unstructure_copies'])}.\n")
 
 
+# ------------------------------------------------------- strategies/_subclasses.py (union-strategy variant)
+
+def translate_subclasses(repo: Path):
+    file = "src/cattrs/strategies/_subclasses.py"
+    mod = ast.parse((repo / file).read_text())
+    fns = {n.name: n for n in mod.body if isinstance(n, ast.FunctionDef)}
+    hs = fns.get("_has_subclasses")
+    if hs is None:
+        raise T1Unrecognised(file, 0, "_has_subclasses not found")
+    body = [_src(x) for x in _strip_doc(hs.body)]
+    norm = lambda t: _src(ast.parse(t).body[0])
+    if body == [norm("return any(c is not cl and issubclass(c, cl) for c in given_subclasses)")]:
+        transitive = True
+    elif body == [norm("actual = set(cl.__subclasses__())"), norm("given = set(given_subclasses)"), norm("return bool(actual & given)")]:
+        transitive = False
+    else:
+        raise T1Unrecognised(file, hs.lineno, f"_has_subclasses body {body}")
+    us = fns.get("_include_subclasses_with_union_strategy")
+    if us is None:
+        raise T1Unrecognised(file, 0, "_include_subclasses_with_union_strategy not found")
+    src = _src(us)
+    for needle in ("parent_classes = [cl for cl in union_classes if _has_subclasses(cl, union_classes)]", "if not parent_classes:\n        return"):
+        if norm_ws(needle) not in norm_ws(src):
+            raise T1Unrecognised(file, us.lineno, f"missing `{needle}`")
+    loops = [n for n in ast.walk(us) if isinstance(n, ast.For) and any(isinstance(x, ast.Assign) and _src(x.targets[0]) == "subclasses" for x in n.body)]
+    if len(loops) != 1:
+        raise T1Unrecognised(file, us.lineno, "expected one second-pass loop assigning `subclasses`")
+    it = _src(loops[0].iter)
+    if it == norm("sorted(union_classes, key=lambda c: len(c.__mro__))").strip():
+        anc_first = True
+    elif it == "union_classes":
+        anc_first = False
+    else:
+        raise T1Unrecognised(file, loops[0].lineno, f"second pass iterates over `{it}`")
+    b = [_src(x) for x in loops[0].body]
+    if not any(x == norm("subclasses = tuple([c for c in union_classes if issubclass(c, cl)])") for x in b):
+        raise T1Unrecognised(file, loops[0].lineno, "second pass: the per-class union is not [c for c in union_classes if issubclass(c, cl)]")
+    if not any(x.startswith("if len(subclasses) > 1:") for x in b):
+        raise T1Unrecognised(file, loops[0].lineno, "second pass: condition `len(subclasses) > 1`")
+    return {"transitive": transitive, "anc_first": anc_first}
+
+
+def norm_ws(t):
+    return re.sub(r"\s+", " ", t)
+
+
+def emit_subclasses(u) -> str:
+    return ("(* GENERATED by harness/t1_translate.py from src/cattrs/strategies/_subclasses.py -- do not edit *)\n"
+            f"Definition src_sub_transitive : bool := {_coq_bool(u['transitive'])}.\n"
+            f"Definition src_sub_anc_first : bool := {_coq_bool(u['anc_first'])}.\n")
+
+
 def main():
     repo, outdir = Path(sys.argv[1]), Path(sys.argv[2])
     outdir.mkdir(parents=True, exist_ok=True)
@@ -1078,6 +1131,15 @@ def main():
         summary["ok"] = False
         summary["errors"].append(str(e))
         summary["sections"]["alias"] = False
+    try:
+        sb = translate_subclasses(repo)
+        write("SubSrc.v", emit_subclasses(sb))
+        summary["subclasses"] = sb
+        summary["sections"]["subclasses"] = True
+    except T1Unrecognised as e:
+        summary["ok"] = False
+        summary["errors"].append(str(e))
+        summary["sections"]["subclasses"] = False
     print(json.dumps(summary))
     return 0 if summary["ok"] else 3
 
